@@ -52,7 +52,7 @@ CHECKS["C11"] = dict(
 
 CHECKS["C17"] = dict(
     text="Seeded edit histories (appendMedium / deleteMedium / item assignment and deletion / mediaText assignment with duplicates, 'all', comments and one malformed query / restart through the owner rule) on media lists that are stand-alone, owned by an @media rule or owned by an @import rule, in lock step with an ordered-set reference model; after every step the text must reparse to an equal list, count / indexing / iteration must agree, and the canonical-form rules ('all' absorbs, a simple type once, empty means 'all') must hold.",
-    note="Media types are lower-case where set semantics are judged; the surviving spelling of a moved type, and appending to the empty list, are observed rather than predicted. Sampling, not proof.",
+    note="Media types are lower-case where set semantics are judged; whether a query is a simple media type is derived from its text (one identifier), not read from the code under test; item assignment is predicted by the model; the surviving spelling of a moved type, appending to the empty list and item deletion are observed rather than predicted. Sampling, not proof.",
     technique="deterministic simulation: seeded operation histories in lock step with an ordered-set reference model plus restart (serialise/reparse) steps",
     ref="DESIGN.md 5 C17",
 )
@@ -73,8 +73,8 @@ CHECKS["C15"] = dict(
 
 CHECKS["C14"] = dict(
     text="Seeded histories of addProfile / addProfiles / removeProfile / removeProfile(all)+re-add / defaultProfiles assignments / rejected removals on a private Profiles registry, with six custom profiles that add properties, redefine existing ones and define macros overriding token macros, general macros and macros of built-in profiles (one callable validator); a 40-pair verdict battery, the known names, the profile list and the per-profile property lists are compared after every step with every earlier state of equal contents in the run, and with a brand-new registry whenever only the built-ins are registered.",
-    note="Contents = ordered list of registered names (fixed definition per custom name); re-adding a registered name is observed. Sampling, not proof.",
-    technique="deterministic simulation: seeded registry histories with a recurrence (same contents => same observable behaviour) oracle and fresh-replica comparison",
+    note="Contents = ordered list of registered names with their definition variant (pool definition, or the same properties registered without the profile's own macros); after every step the registry is also compared with a new registry given the same profiles directly (no history at all); single removals go in reverse order of registration and definitions are well-defined (removing a profile whose macros others use, or naming an undefined macro, is the caller's error). Sampling, not proof.",
+    technique="deterministic simulation: seeded registry histories with a recurrence (same contents => same observable behaviour) oracle and comparison with a history-free replica built directly from the contents",
     ref="DESIGN.md 5 C14",
 )
 
@@ -100,7 +100,7 @@ CHECKS["C01"] = dict(
 )
 CHECKS["C03"] = dict(
     text="Crash-recovery style check with cssText as the only durable form: a sheet parsed from a well-formed generated source (both quote kinds, backslashes, CSS escapes, line breaks, non-ASCII, comments at rule and declaration level, namespaces, nested @media, @page with margin boxes) is driven through a seeded history of accepted DOM edits; Restart steps (serialise, drop everything, reparse - directly, through a scratch file, or served by the simulated network) and NodeRestart steps (text of one rule / declaration block / selector list / media list / property value set on a fresh object) must give an equal projection and byte-identical text.",
-    note="Equality modulo the documented default preferences (empty rules are not serialised); white space items inside selectors are not compared; @variables are not generated. One recorded known finding (comments inside margin boxes). Input spellings are only as good as the renderer (input generation). Sampling, not proof.",
+    note="Equality modulo the documented default preferences (empty rules are not serialised); white space items inside selectors are not compared; @variables are not generated. One recorded known finding (a margin box holding nothing but comments is not serialised; pinned by the suite). Input spellings are only as good as the renderer (input generation). Sampling, not proof.",
     technique="deterministic simulation: seeded edit histories with restart (serialise / drop / reparse) and node-restart steps against projection equality and byte fixpoint",
     ref="DESIGN.md 5 C03",
 )
